@@ -1,18 +1,20 @@
-import FrappyProofs.Lemmas.Lifecycle
+import FrappyProofs.Lemmas.LifecycleWait
 import FrappyModel.Generated.C15
 /-
 C15 — Lifecycle: initialise, write config, poll, serve; shutdown in reverse order.
 Property theorems over `FrappyModel.Klass.Lifecycle` against `FrappyModel.Spec.C15`.
 
-Proved in full strength (every graph with a topological numbering, every choice function of `set.pop()`, every
-schedule): `sorted_modules_topological`, `shutdown_phase_order`, `ready_only_after_first_round`.
-Kept as `…_statement` (full statement, not proved — the correspondence run and the monitors are the evidence for
-them): `init_order_once_statement`, `attached_ready_statement`, `bad_attachment_reported_statement`,
-`writes_before_first_poll_statement`, `shutdown_order_statement`, `ready_after_first_round_statement`.
-`attached_ready_fails` proves the recorded finding on the model.
+Proved for every configuration, fuel, schedule and choice function of `set.pop()` (whole runs):
+`attached_ready`, `no_half_start`, `ready_after_first_round`; `sorted_modules_topological` (every graph with a
+topological numbering); `shutdown_phase_order`, `shutdown_order_whole_run` (resolved attachments assumed acyclic);
+`init_order_once_partial` (one early, one init, in order, for every initialised module of a node that came up; every
+module of the creation loop initialised; the start phase logs exactly the start loop); `ready_only_after_first_round`.
+Kept as `…_statement` (not proved; evidence = correspondence run + monitors): `init_order_once_statement`,
+`bad_attachment_reported_statement` (its second half is `no_half_start`), `writes_before_first_poll_statement`,
+`shutdown_order_statement` (declared instead of resolved attachments).
 -/
 namespace Frappy.Proofs.C15
-open Frappy.Lifecycle Frappy.Spec.C15 Frappy.Proofs.Lifecycle
+open Frappy.Lifecycle Frappy.Spec.C15 Frappy.Proofs.Lifecycle Frappy.Proofs.LifecycleInit Frappy.Proofs.LifecycleWait
 
 /-- a finite graph on `mods` is acyclic: it has a topological numbering (with numbers up to the number of modules —
 the length of the longest path) -/
@@ -32,7 +34,7 @@ theorem sorted_modules_topological (mods : List Name) (att : Name → List Name)
 example : Acyclic ["u", "io", "x"] (fun n => if n = "u" then ["io"] else if n = "x" then ["u", "io"] else []) :=
   ⟨fun n => if n = "x" then 2 else if n = "u" then 1 else 0, by decide, by decide⟩
 
-/-- full statement of the shutdown clause for a whole life of the node -/
+/-- full statement of the shutdown clause for a whole life of the node, against the *declared* attachments -/
 def shutdown_order_statement : Prop :=
   ∀ (cfg : Cfg) (fuel : Nat) (sched : List Act) (pick : List Name → Nat),
     let r := run cfg fuel sched pick
@@ -41,27 +43,55 @@ def shutdown_order_statement : Prop :=
       ((declaredEdges (allMods cfg r.st.ioDict) r.st.ioDict).filter (fun e => (names (allMods cfg r.st.ioDict)).contains e.2))
       r.log
 
+/-- the shutdown clause for a whole life of the node (every schedule, every choice function), against the *resolved*
+attachments (`attachedModules`) of the started node, which are assumed acyclic and closed.  Missing for
+`shutdown_order_statement`: that a node which came up has resolved exactly its declared attachments and that they are
+acyclic (this is what `get_module` checks; the invariant `edges ⊆ completion order` is not proved). -/
+theorem shutdown_order_whole_run (cfg : Cfg) (fuel : Nat) (sched : List Act) (pick : List Name → Nat)
+    (herr : (run cfg fuel sched pick).st.errors = [])
+    (hclosed : ∀ e ∈ (run cfg fuel sched pick).st.edges,
+      e.1 ∈ (run cfg fuel sched pick).st.modules → e.2 ∈ (run cfg fuel sched pick).st.modules)
+    (hacyc : ∃ rank : Name → Nat, (∀ e ∈ (run cfg fuel sched pick).st.edges, rank e.2 < rank e.1) ∧
+      ∀ m ∈ (run cfg fuel sched pick).st.modules, rank m ≤ (run cfg fuel sched pick).st.modules.length) :
+    ShutdownOrder (run cfg fuel sched pick).st.modules (run cfg fuel sched pick).st.edges
+      (run cfg fuel sched pick).log := by
+  rw [(run_log cfg fuel sched pick).1] at herr hclosed hacyc ⊢
+  rw [(run_log cfg fuel sched pick).2]
+  simp only [herr, List.isEmpty_nil, if_true, laterPart]
+  have : (startup cfg fuel).log ++ (waitPhase (startup cfg fuel) sched ++ [Ev.shutdownbegin] ++
+      shutdownLog (startup cfg fuel).modules (threadsOf (startup cfg fuel)) (startup cfg fuel).edges pick) =
+      ((startup cfg fuel).log ++ (waitPhase (startup cfg fuel) sched ++ [Ev.shutdownbegin])) ++
+      shutdownLog (startup cfg fuel).modules (threadsOf (startup cfg fuel)) (startup cfg fuel).edges pick := by
+    simp [List.append_assoc]
+  rw [this]
+  obtain ⟨rank, hr, hb⟩ := hacyc
+  exact shutdownOrder_prefix _ _ _ _ (before_shutdown_plain cfg fuel sched)
+    (shutdownLog_order _ _ _ pick rank (startup_modsNd cfg fuel) hclosed hr hb)
+
 /-- proved part: the shutdown phase (`shutdown_modules`) of the model stops every poll thread first, shuts every
 module down exactly once and users before the modules attached to them, whenever the resolved attachments of the
 started node are acyclic — for every choice function.  Missing for the full statement: that the log of the earlier
 phases contains no shutdown events, and that a node which came up has exactly the declared attachments resolved and
 acyclic (both hold on every configuration of the correspondence run). -/
-theorem shutdown_phase_order (mods : List Name) (edges : List (Name × Name)) (pick : List Name → Nat)
+theorem shutdown_phase_order (mods threads : List Name) (edges : List (Name × Name)) (pick : List Name → Nat)
     (hnd : mods.Nodup) (hclosed : ∀ e ∈ edges, e.1 ∈ mods → e.2 ∈ mods)
     (hacyc : ∃ rank : Name → Nat, (∀ e ∈ edges, rank e.2 < rank e.1) ∧ ∀ m ∈ mods, rank m ≤ mods.length) :
-    ShutdownOrder mods edges (shutdownLog mods edges pick) := by
+    ShutdownOrder mods edges (shutdownLog mods threads edges pick) := by
   obtain ⟨rank, hr, hb⟩ := hacyc
-  exact shutdownLog_order mods edges pick rank hnd hclosed hr hb
+  exact shutdownLog_order mods threads edges pick rank hnd hclosed hr hb
 
 example : ∃ rank : Name → Nat, (∀ e ∈ [("u", "io"), ("x", "u")], rank e.2 < rank e.1) ∧
     ∀ m ∈ ["io", "u", "x"], rank m ≤ ["io", "u", "x"].length :=
   ⟨fun n => if n = "x" then 2 else if n = "u" then 1 else 0, by decide, by decide⟩
 
-def ready_after_first_round_statement : Prop :=
-  ∀ (cfg : Cfg) (fuel : Nat) (sched : List Act) (pick : List Name → Nat),
-    ReadyAfterFirstRound (run cfg fuel sched pick).log
+/-- `ready_after_first_round`, full: in every life of the node (every configuration, schedule of start loop / poll
+threads / clock, choice function) `ready` is logged at most once, and before it every poll thread that is ever started
+has been started and has reported its first round, or the deadline has passed and the thread is named as timed out. -/
+theorem ready_after_first_round (cfg : Cfg) (fuel : Nat) (sched : List Act) (pick : List Name → Nat) :
+    ReadyAfterFirstRound (run cfg fuel sched pick).log :=
+  run_ready cfg fuel sched pick
 
-/-- proved part, for every schedule of the start loop, the poll threads and the clock: at the moment the waiting main
+/-- the same at the level of the machine, for every schedule: at the moment the waiting main
 thread reports ready, the start loop is complete and every poll thread that was started has reported its first round,
 or the deadline has passed and the thread is named as timed out.  Missing for the full statement: the bookkeeping that
 turns "at the moment of `ready`" into positions in the complete log. -/
@@ -104,14 +134,75 @@ example : (wakeStep (waitRun (waitInit { modules := ["a"], groups := [("a", "a")
     [.main, .main, .step "a", .step "a"])).ready = true := by
   decide +kernel
 
+/-- proved part of `init_order_once`: in every life of a node that came up (no errors; every schedule and choice
+function) every initialised module has exactly one `early` and exactly one `init` event in the whole log, in that
+order; every module produced by the creation loop is initialised (unless the fuel bound was hit); and the start
+phase logs exactly the start loop — one `start` per module of the node, in declaration order — whatever the schedule.
+Missing for the full statement: that no module is created after the creation loop (so that "initialised" covers all
+of `modules`), the position of `start m` after `init m` stated on the log, and that a clean configuration produces no
+error. -/
+theorem init_order_once_partial (cfg : Cfg) (fuel : Nat) (sched : List Act) (pick : List Name → Nat)
+    (herr : (run cfg fuel sched pick).st.errors = []) :
+    (∀ m ∈ (run cfg fuel sched pick).st.inited,
+      OnceInOrder (Ev.early m) (Ev.init m) (run cfg fuel sched pick).log) ∧
+    ((run cfg fuel sched pick).st.oof = false →
+      ∀ m ∈ (createLoop cfg.dyn fuel fuel cfg.mods { known := cfg.mods }).modules,
+        m ∈ (run cfg fuel sched pick).st.inited) ∧
+    (waitPhase (run cfg fuel sched pick).st sched).filter isMainEv = startEvents (run cfg fuel sched pick).st := by
+  rw [(run_log cfg fuel sched pick).1] at herr ⊢
+  rw [(run_log cfg fuel sched pick).2]
+  have hcore : (core cfg fuel).errors = [] := by
+    rw [startup_eq] at herr
+    split at herr
+    · exact herr
+    · simpa [emit] using herr
+  have hst : startup cfg fuel = core cfg fuel := by
+    rw [startup_eq]; simp [hcore]
+  refine ⟨?_, ?_, start_loop_complete _ sched⟩
+  · intro m hm
+    simp only [herr, List.isEmpty_nil, if_true]
+    rw [hst] at hm ⊢
+    apply onceInOrder_append _ _ _ _ (core_once cfg fuel hcore m hm)
+    · intro h; have := (later_no_init _ sched pick _ h).2; simp [isInitEv] at this
+    · intro h; have := (later_no_init _ sched pick _ h).2; simp [isInitEv] at this
+  · intro hoof m hm
+    rw [hst] at hoof ⊢
+    exact core_created_inited cfg fuel hoof m hm
+
 def init_order_once_statement : Prop :=
   ∀ (cfg : Cfg) (fuel : Nat) (sched : List Act) (pick : List Name → Nat),
     let r := run cfg fuel sched pick
     r.st.oof = false → cleanB cfg r.st.ioDict = true →
     r.st.errors = [] ∧ (∀ n ∈ names (allMods cfg r.st.ioDict), n ∈ r.st.modules) ∧ InitOrderOnce r.st.modules r.log
 
-def attached_ready_statement : Prop :=
-  ∀ (cfg : Cfg) (fuel : Nat), AttachedReady (startup cfg fuel).log
+/-- `attached_ready`, full: in every life of the node (every configuration, cyclic or not, failing hooks or not,
+every fuel, schedule and choice function), whenever a module obtains an attached module, that module's `initModule`
+has already been entered — and (invariant `Inv.initOk` behind it) has run to completion without error. -/
+theorem attached_ready (cfg : Cfg) (fuel : Nat) (sched : List Act) (pick : List Name → Nat) :
+    AttachedReady (run cfg fuel sched pick).log := by
+  apply attachedReady_of_ARfrom
+  rw [(run_log cfg fuel sched pick).2]
+  split
+  · exact ARfrom_append _ (fun e he => (later_no_init _ sched pick e he).1) _ _ (startup_ar cfg fuel)
+  · exact startup_ar cfg fuel
+
+/-- "reported as a configuration error instead of a half-started node", full: whenever the error list is not empty,
+no `startModule` is ever called -/
+theorem no_half_start (cfg : Cfg) (fuel : Nat) (sched : List Act) (pick : List Name → Nat) :
+    NoHalfStart ⟨(run cfg fuel sched pick).st.modules, (run cfg fuel sched pick).st.errors,
+      (run cfg fuel sched pick).log, (run cfg fuel sched pick).st.ioDict⟩ := by
+  intro herr e he
+  simp only at herr he
+  rw [(run_log cfg fuel sched pick).1] at herr
+  rw [(run_log cfg fuel sched pick).2] at he
+  have hne : (startup cfg fuel).errors.isEmpty = false := by
+    cases h : (startup cfg fuel).errors with
+    | nil => exact absurd h herr
+    | cons a l => rfl
+  simp only [hne] at he
+  rcases startup_shape cfg fuel e he with h | rfl
+  · cases e <;> simp [isInitEv] at h <;> rfl
+  · rfl
 
 def bad_attachment_reported_statement : Prop :=
   ∀ (cfg : Cfg) (fuel : Nat) (sched : List Act) (pick : List Name → Nat),
@@ -126,19 +217,16 @@ def writes_before_first_poll_statement : Prop :=
     r.st.oof = false → r.st.errors = [] →
     WritesBeforeFirstPoll ((allMods cfg r.st.ioDict).filter (fun c => r.st.modules.contains c.name)) r.log
 
-/-- the configuration of the recorded finding: `d` fails in earlyInit, `u` uses its attachment to `d` in initModule -/
+/-- the configuration of the former finding: `d` fails in earlyInit, `u` uses its attachment to `d` in initModule -/
 def findingCfg : Cfg :=
   { mods := [{ (default : ModCfg) with name := "d", failEarly := true },
              { (default : ModCfg) with name := "u", atts := [⟨"a0", some "d", true, 0⟩], touchInit := ["a0"] }],
     dyn := [] }
 
-/-- recorded finding, on the model: a module whose earlyInit raised is handed to its user although it never ran
-initModule — `attached_ready_statement` is false for the code as it is (the node is rejected afterwards:
-`findingCfg_rejected`). -/
-theorem attached_ready_fails : ¬ attached_ready_statement := by
-  intro h
-  have := h findingCfg 10
-  revert this
+/-- the former finding (a module whose earlyInit raised was handed to its user) is repaired: the user's attachment
+raises instead, nobody obtains `d` -/
+theorem finding_repaired : AttachedReady (startup findingCfg 10).log ∧
+    ∀ e ∈ (startup findingCfg 10).log, gotten e = none := by
   decide +kernel
 
 theorem findingCfg_rejected : (startup findingCfg 10).errors ≠ [] ∧
